@@ -689,7 +689,12 @@ func (g *Gen) apiUpd() Op {
 	if len(al) > 0 && g.r.P(90) {
 		u = g.userIdx(al[g.r.N(len(al))].Bidder)
 	}
-	return NewOp("APIUPD", "a", g.auctionId(a), "u", fmt.Sprint(u), "max", g.maxAmt(a))
+	max := g.maxAmt(a)
+	if g.r.P(20) {
+		// the update call accepts any positive maximum, also one above what the auction offers
+		max = mulDiv(a.GetSellingCoin().Amount, g.r.PickI(2, 3, 1), 1).AddRaw(g.r.PickI(1, 0, 7)).String()
+	}
+	return NewOp("APIUPD", "a", g.auctionId(a), "u", fmt.Sprint(u), "max", max)
 }
 
 func (g *Gen) cancel() Op {
@@ -977,6 +982,11 @@ func (g *Gen) Next() Op {
 			g.snipeAmt = mulDiv(supply, 3, 5).AddRaw(1)
 			g.snipePx = encDec(top.Add(math.LegacyNewDecWithPrec(1, int64(g.r.PickI(0, 1, 18)))))
 			g.pending = []string{"SNIPE_ADD", "SNIPE_BID0", "SNIPE_BID1", "HEND"}
+			if g.r.P(40) {
+				// variant "whale": one bidder whose maximum was raised above the whole offer (the update call allows
+				// that) places a single how-much-worth bid at the new top price that asks for more than the offer
+				g.pending = []string{"SNIPE_ADD", "WHALE_UPD", "WHALE_BID", "HEND"}
+			}
 			break
 		}
 	}
@@ -1037,6 +1047,22 @@ func (g *Gen) Next() Op {
 		return g.heavyBid()
 	case "SNIPE_ADD":
 		return NewOp("APIADD", "a", fmt.Sprint(g.heavyA), "l", fmt.Sprintf("%d/u%d/%s;%d/u%d/%s", g.heavyA, g.snipeU[0], g.snipeAmt, g.heavyA, g.snipeU[1], g.snipeAmt))
+	case "WHALE_UPD":
+		for _, a := range as {
+			if a.GetId() == g.heavyA {
+				return NewOp("APIUPD", "a", fmt.Sprint(g.heavyA), "u", fmt.Sprint(g.snipeU[0]), "max", mulDiv(a.GetSellingCoin().Amount, 2, 1).AddRaw(1).String())
+			}
+		}
+		return g.bid()
+	case "WHALE_BID":
+		for _, a := range as {
+			if a.GetId() == g.heavyA {
+				w := pDec(g.snipePx).MulInt(mulDiv(a.GetSellingCoin().Amount, 3, 2)).Ceil().TruncateInt()
+				return NewOp("BID", "who", fmt.Sprintf("u%d", g.snipeU[0]), "a", fmt.Sprint(g.heavyA), "bt", "2", "price", g.snipePx,
+					"coin", fmt.Sprint(denomIdx(a.GetPayingCoinDenom()))+":"+w.String())
+			}
+		}
+		return g.bid()
 	case "SNIPE_BID0", "SNIPE_BID1":
 		for _, a := range as {
 			if a.GetId() == g.heavyA {
